@@ -154,6 +154,12 @@ func ValidateCounterpartyID(id string, protocol ProtocolID) error {
 		return errors.New("counterparty ID cannot be empty string")
 	}
 
+	// NOTE: the counterparty ID is part of the keys of the module's collections, whose
+	// encoding reserves the null character as string delimiter.
+	if strings.ContainsRune(id, 0) {
+		return errors.New("counterparty ID cannot contain the null character")
+	}
+
 	if len(id) > MaxCounterpartyIDLength {
 		return fmt.Errorf(
 			"counterparty ID cannot contain more than %d characters",
